@@ -36,6 +36,7 @@ func difference(a map[string]string, b map[string]bool) []string {
 			new = append(new, key1)
 		}
 	}
+	sort.Strings(new)
 	return new
 }
 
